@@ -215,6 +215,7 @@ func c18Round(c *RunCtx, seed uint64, nreq int, dropAt int) {
 		c.Stat("c18_drops", 1)
 	}
 	// verdicts
+	preTotal, preTimedOut := 0, 0
 	for _, rq := range reqs {
 		rq.mu.Lock()
 		done := append([]c18Done(nil), rq.Done...)
@@ -238,7 +239,20 @@ func c18Round(c *RunCtx, seed uint64, nreq int, dropAt int) {
 			continue // outcomes after a drop are not unambiguous
 		}
 		switch rq.Behaviour {
-		case "reply1", "reply2", "pre-reply":
+		case "pre-reply":
+			// the pre-response extends the timeout to 260 ms and the reply follows
+			// 160 ms after the request; if the pre-response is processed later
+			// than the base timeout (loaded machine) the request times out
+			// legitimately, so single timeouts are counted, not judged: a round in
+			// which most pre-reply requests time out is (below)
+			preTotal++
+			if d.Err == "system.timeout" && el >= reqTimeout {
+				preTimedOut++
+				c.Stat("c18_prereply_timed_out", 1)
+			} else if d.Err != "" || d.Payload != wantReply {
+				fail("wrongCompletion", "request %d (%s) completed with %+v, want the first reply", rq.ID, rq.Behaviour, d)
+			}
+		case "reply1", "reply2":
 			if d.Err != "" || d.Payload != wantReply {
 				fail("wrongCompletion", "request %d (%s) completed with %+v, want the first reply", rq.ID, rq.Behaviour, d)
 			}
@@ -305,6 +319,9 @@ func c18Round(c *RunCtx, seed uint64, nreq int, dropAt int) {
 		fail("eventsLost", "%d of %d published events reached the callback before Unsubscribe", len(got), nEvents)
 	}
 	unsub.Unsubscribe()
+	if preTotal >= 4 && preTimedOut*2 > preTotal {
+		fail("preResponseIgnored", "%d of %d requests whose timeout pre-response (260 ms) was followed by a reply after 160 ms completed with system.timeout", preTimedOut, preTotal)
+	}
 	c.Stat("c18_events_checked", int64(len(got)))
 	cl.Close()
 	if cl.VerifPending() != 0 && !dropped {
